@@ -571,6 +571,13 @@ def _tables(run, fw, D, V2):
 
     def evb(_ret, code):
         return code in accepted
+    # the device's own error range is 0x69A0-0x6BFF plus 0x6D00 (property C04, mechanism `status word classification`): exactly that set - one
+    # status less (an exclusive upper bound) turns a device answer into an unknown error that stops the manager, one more swallows transport statuses
+    want_acc = set(range(0x69A0, 0x6BFF + 1)) | {0x6D00}
+    diff_ = sorted(accepted ^ want_acc)
+    run.check("R3", not diff_, "is_user_defined_error accepts exactly 0x69A0-0x6BFF and 0x6D00", key="is_user_defined_error|exact-range", where=isud.loc(),
+              message=f"is_user_defined_error deviates from the device error range 0x69A0-0x6BFF / 0x6D00 on {[f'{hex(a)}-{hex(b)}' for a, b in _ranges(diff_)][:4]} "
+                      f"(accepts {[f'{hex(a)}-{hex(b)}' for a, b in _ranges(accepted)][:4]}): a status at the edge of the range is classified as the wrong kind of failure")
     ret = None
     allv = {**{n: v for n, v in c_auth.items()}, **{n: v for n, v in c_bc.items() if v}}
     for ecls in ("_SignError", "_GetPubKeyError", "_AdvanceUpdateError", "_UIError",
